@@ -13,6 +13,7 @@ import (
 	"encoding/binary"
 	"fmt"
 	"net"
+	"os"
 	"testing"
 	"time"
 
@@ -345,12 +346,44 @@ func (g *gen) one() ([]byte, string) {
 	}
 }
 
+// realTime is set by the driver when it re-executes a case that stalled in a
+// bubble (a goroutine queueing on a mutex that is never released stops virtual
+// time; a bubble cannot tell that from running code). In real time the probes'
+// own time-outs decide.
+var realTime = os.Getenv("VERIF_REALTIME") == "1"
+
+func run(c *vh.Case, fn func()) {
+	if realTime {
+		fn()
+		return
+	}
+	c.Bubble(fn)
+}
+
+// closeServer closes the world's server; in real time a Close that does not
+// return is itself a verdict (a wedged receive loop keeps it waiting).
+func closeServer(c *vh.Case, w *world) {
+	if !realTime {
+		w.srv.Close()
+		return
+	}
+	done := make(chan struct{})
+	go func() { w.srv.Close(); close(done) }()
+	select {
+	case <-done:
+	case <-time.After(15 * time.Second):
+		if same, dump := vh.StuckIn(3*time.Second, "(*Server).Close", "(*Server).Serve", "(*Server).readPacket"); same && !c.Violated() {
+			c.Violate("C10:server-close-does-not-return-after-junk:"+w.config, map[string]any{"goroutine_dump": dump})
+		}
+	}
+}
+
 func genC10(r *vh.Runner) {
 	per := r.Pick(96, 2000)
 	for _, cfg := range configs {
 		for b := 0; b < per; b++ {
 			r.Case(fmt.Sprintf("%s/batch/%d", cfg, b), map[string]any{"config": cfg, "batch": b}, func(c *vh.Case) {
-				c.Bubble(func() { batchRun(r, c, cfg, b) })
+				run(c, func() { batchRun(r, c, cfg, b) })
 			})
 		}
 	}
@@ -358,7 +391,7 @@ func genC10(r *vh.Runner) {
 	ns := r.Pick(8, 100)
 	for b := 0; b < ns; b++ {
 		r.Case(fmt.Sprintf("sni/%d", b), map[string]any{"batch": b}, func(c *vh.Case) {
-			c.Bubble(func() { sniRun(r, c, b) })
+			run(c, func() { sniRun(r, c, b) })
 		})
 	}
 	// exhaustive truncations and type-byte grid (thorough: all; quick: a slice of them per run)
@@ -366,7 +399,7 @@ func genC10(r *vh.Runner) {
 		chunks := r.Pick(4, 64)
 		for k := 0; k < chunks; k++ {
 			r.Case(fmt.Sprintf("%s/truncations/%d-of-%d", cfg, k, chunks), map[string]any{"config": cfg, "chunk": k, "chunks": chunks}, func(c *vh.Case) {
-				c.Bubble(func() { truncationRun(r, c, cfg, k, chunks) })
+				run(c, func() { truncationRun(r, c, cfg, k, chunks) })
 			})
 		}
 	}
@@ -401,7 +434,7 @@ func probe(r *vh.Runner, c *vh.Case, w *world, est *live, what string, detail ma
 func batchRun(r *vh.Runner, c *vh.Case, cfg string, b int) {
 	rng := vh.NewRand(r.Seed, "c10-batch", cfg, b)
 	w := newWorldFor(cfg)
-	defer w.srv.Close()
+	defer closeServer(c, w)
 	valid := harvest(w)
 	est, err := handshakeTo(w, w.hidden)
 	if err != nil {
@@ -516,7 +549,7 @@ func batchRun(r *vh.Runner, c *vh.Case, cfg string, b int) {
 // type-byte x length grid, split into chunks.
 func truncationRun(r *vh.Runner, c *vh.Case, cfg string, k, chunks int) {
 	w := newWorldFor(cfg)
-	defer w.srv.Close()
+	defer closeServer(c, w)
 	valid := harvest(w)
 	est, err := handshakeTo(w, w.hidden)
 	if err != nil {
@@ -588,7 +621,7 @@ func truncationRun(r *vh.Runner, c *vh.Case, cfg string, k, chunks int) {
 func sniRun(r *vh.Runner, c *vh.Case, b int) {
 	rng := vh.NewRand(r.Seed, "c10-sni", b)
 	w := newWorldFor("multi-vhost")
-	defer w.srv.Close()
+	defer closeServer(c, w)
 	est, err := handshakeTo(w, false)
 	if err != nil {
 		c.Inconclusive("setup handshake failed: " + err.Error())
